@@ -298,7 +298,12 @@ fn items_view<'tcx>(tcx: TyCtxt<'tcx>) -> J {
                 for (vi, v) in adt.variants().iter_enumerated() {
                     let mut fields = Vec::new();
                     for f in v.fields.iter() {
-                        let fty = tcx.type_of(f.did).instantiate_identity().skip_norm_wip();
+                        let raw = tcx.type_of(f.did).instantiate_identity();
+                        let te = ty::TypingEnv::non_body_analysis(tcx, did);
+                        let fty = match tcx.try_normalize_erasing_regions(te, raw) {
+                            Ok(t) => t,
+                            Err(_) => raw.skip_norm_wip(),
+                        };
                         fields.push(J::obj(vec![
                             ("name", J::s(f.name.to_string())),
                             ("ty", J::s(ty_s(fty))),
@@ -347,11 +352,22 @@ fn items_view<'tcx>(tcx: TyCtxt<'tcx>) -> J {
                 };
                 let mut assoc = Vec::new();
                 for it in tcx.associated_items(did).in_definition_order() {
-                    assoc.push(J::obj(vec![
+                    let mut a = J::obj(vec![
                         ("name", J::s(it.opt_name().map(|n| n.to_string()).unwrap_or_default())),
                         ("path", J::s(path_of(tcx, it.def_id))),
                         ("kind", J::s(format!("{:?}", it.kind).split('{').next().unwrap_or("").trim().to_string())),
-                    ]));
+                    ]);
+                    if matches!(it.kind, ty::AssocKind::Type { .. }) && it.opt_name().is_some() {
+                        let raw = tcx.type_of(it.def_id).instantiate_identity();
+                        let te = ty::TypingEnv::non_body_analysis(tcx, did);
+                        let aty = match tcx.try_normalize_erasing_regions(te, raw) {
+                            Ok(t) => t,
+                            Err(_) => raw.skip_norm_wip(),
+                        };
+                        a.push("ty", J::s(ty_s(aty)));
+                        a.push("adts", J::Arr(adts_in(tcx, aty).into_iter().map(J::s).collect()));
+                    }
+                    assoc.push(a);
                 }
                 let is_unsafe = match imp.of_trait {
                     Some(t) => matches!(t.safety, rustc_hir::Safety::Unsafe),
